@@ -694,7 +694,16 @@ func edit(c *Chooser, g GenCfg, v *Val) *Val {
 	}
 	n := cs[c.Int(len(cs))]
 	if n.K == 'o' {
-		switch c.Pick(3, 3, 3, 1, 2) {
+		switch c.Pick(3, 3, 3, 1, 2, 1) {
+		case 5: // a family of related keys arrives at once
+			fams := [][]string{{"7", "07", "10", "6x"}, {"1.1", "1.01", "1.001"}, {"v7", "v07", "v10"}, {"k07", "k10", "k1e3"}, {"item2", "item10", "item1"}, {"a", "B", "_"}, {"9223372036854775808", "5", "92"}}
+			fam := fams[c.Int(len(fams))]
+			if !g.NumLikeKey && (fam[0] == "7" || fam[0] == "9223372036854775808") {
+				fam = fams[3]
+			}
+			for _, k := range fam {
+				n.set(k, genScalar(c, g))
+			}
 		case 4: // two keys exchange their values
 			if len(n.Keys) >= 2 {
 				i, j := c.Int(len(n.Keys)), c.Int(len(n.Keys))
